@@ -107,10 +107,10 @@ SPECS = {
     "C05": dict(modules=["Ovldverif.Props.C05", "Ovldverif.Props.C16"], streams=["table_static", "table_rich", "fn", "fn_types", "graph"], oracle="C05"),
     "C06": dict(modules=["Ovldverif.Props.C06", "Ovldverif.Props.C10"], streams=["table_static", "fn_static", "levels", "levels_rich", "dep_f", "dep_lit_f"], oracle="C06"),
     "C07": dict(modules=["Ovldverif.Props.C07", "Ovldverif.Props.C07Chain", "Ovldverif.Props.C02Twin"], streams=["table_static", "fn_static", "levels", "graph", "dep_f", "dep_lit_f"], oracle="C07"),
-    "C20": dict(modules=["Ovldverif.Props.C20", "Ovldverif.Props.C20Build"], streams=["table_rich", "fn", "dep_f", "fn_types", "graph", "conc_first"], oracle="C20"),
+    "C20": dict(modules=["Ovldverif.Props.C20", "Ovldverif.Props.C20Build", "Ovldverif.Props.C20Graph"], streams=["table_rich", "fn", "dep_f", "fn_types", "graph", "conc_first"], oracle="C20"),
     "C09": dict(modules=["Ovldverif.Props.C09", "Ovldverif.Props.C09Stmt"], streams=["rewrite", "rewrite_struct"], oracle="C09"),
     "C16": dict(modules=["Ovldverif.Props.C16"], streams=["graph"], oracle="C16"),
-    "C18": dict(modules=["Ovldverif.Props.C18", "Ovldverif.Props.C18Resolve", "Ovldverif.Props.C18Tree"], streams=["build", "table_cut", "table_cut_rich"], oracle="C18"),
+    "C18": dict(modules=["Ovldverif.Props.C18", "Ovldverif.Props.C18Resolve", "Ovldverif.Props.C18Tree", "Ovldverif.Props.C18Forest"], streams=["build", "table_cut", "table_cut_rich"], oracle="C18"),
     "C08": dict(modules=["Ovldverif.Props.C08", "Ovldverif.Props.C09"], streams=["graph", "graph_deep", "rewrite", "graph_self"], oracle="C08"),
     "C15": dict(modules=["Ovldverif.Props.C15"], streams=["annotations"], oracle="C15"),
     "C14": dict(modules=["Ovldverif.Props.C14"], streams=["annotations", "fn_types"], oracle="C14"),
